@@ -85,10 +85,11 @@ type tokSpec struct {
 }
 
 type step struct {
-	op   string // arrive | cancel | expire | release
+	op   string // arrive | cancel | expire | release | rotate (ground truth: the endpoint publishes set from now on)
 	tok  *tokSpec
 	tid  int
 	resp *respSpec
+	set  []*jwkSpec
 }
 
 type script struct {
@@ -205,6 +206,12 @@ func coqScript(s *script) string {
 			items[i] = emit.Ctor("MCancel", emit.Nat(st.tid))
 		case "expire":
 			items[i] = emit.Ctor("MExpire", emit.Nat(st.tid))
+		case "rotate":
+			ks := make([]string, len(st.set))
+			for k, j := range st.set {
+				ks[k] = coqJwk(j)
+			}
+			items[i] = emit.Ctor("MRotate", emit.List(ks))
 		default:
 			items[i] = emit.Ctor("MRelease", coqResp(st.resp))
 		}
@@ -786,10 +793,12 @@ func (g *gen) randomScript() *script {
 	target := 2 + g.r.IntN(5)
 	tl := g.timeline(1 + g.r.IntN(3))
 	idx, arrived := 0, 0
+	s.steps = append(s.steps, step{op: "rotate", set: tl[0]})
 	for phase := 0; arrived < target; phase++ {
 		if phase > 0 && idx+1 < len(tl) && g.r.Chance(1, 2) {
 			idx++
 			s.tags = append(s.tags, "rotate=1")
+			s.steps = append(s.steps, step{op: "rotate", set: tl[idx]})
 		}
 		for k := 1 + g.r.IntN(3); k > 0 && arrived < target; k-- {
 			s.steps = append(s.steps, step{op: "arrive", tok: g.randToken(tl, idx)})
@@ -841,6 +850,10 @@ func (g *gen) directed(which int) *script {
 	valid := func(i int) *tokSpec { j := drv.Pick(g.r, tl[i]); return g.token("valid", j.kid, j.key) }
 	s := &script{}
 	add := func(st ...step) { s.steps = append(s.steps, st...) }
+	rot := func(i int) step { return step{op: "rotate", set: tl[i]} }
+	if which < 9 {
+		add(rot(0))
+	}
 	switch which {
 	case 0: // F13: the first caller (owner of the download) is cancelled while others wait
 		s.tags = []string{"shape=owner_cancel"}
@@ -876,9 +889,68 @@ func (g *gen) directed(which int) *script {
 		if g.r.Bool() {
 			ta, tb = tb, ta
 		}
+		add(step{op: "rotate", set: set})
 		add(step{op: "arrive", tok: ta}, step{op: "arrive", tok: tb}, step{op: "release", resp: g.goodResp(set)},
 			step{op: "arrive", tok: tb}, step{op: "arrive", tok: ta},
 			step{op: "arrive", tok: g.token("wrongkey", kid, g.someOther(a, true))}, step{op: "release", resp: g.goodResp(set)})
+	case 10: // keys published without kid x tokens with kid (and vice versa), across a rotation
+		s.tags = []string{"shape=kid_mismatch_rotation", "rotate=1"}
+		var a *keyEnt
+		for a == nil || g.otherKey(a, true) == nil {
+			a = drv.Pick(g.r, g.pool)
+		}
+		b := g.otherKey(a, true)
+		var ja, jb *jwkSpec
+		var ta, tb func() *tokSpec
+		if g.r.Bool() { // keys without kid, tokens with kid
+			kid := g.freshKid()
+			ja, jb = &jwkSpec{use: "sig", key: a}, &jwkSpec{use: "sig", key: b}
+			ta = func() *tokSpec { return g.token("kid_vs_kidless_key", kid, a) }
+			tb = func() *tokSpec { return g.token("kid_vs_kidless_key", kid, b) }
+		} else { // keys with kid, tokens without
+			ja, jb = &jwkSpec{kid: g.freshKid(), use: "sig", key: a}, &jwkSpec{kid: g.freshKid(), use: "sig", key: b}
+			ta = func() *tokSpec { return g.token("kidless", "", a) }
+			tb = func() *tokSpec { return g.token("kidless", "", b) }
+		}
+		s0, s1 := []*jwkSpec{ja}, []*jwkSpec{jb}
+		if g.r.Bool() { // a neighbour of another key type, with a kid, before or after
+			x := &jwkSpec{kid: g.freshKid(), use: "sig", key: g.otherKey(a, false)}
+			if g.r.Bool() {
+				s0, s1 = append([]*jwkSpec{x}, s0...), append([]*jwkSpec{x}, s1...)
+			} else {
+				s0, s1 = append(s0, x), append(s1, x)
+			}
+		}
+		add(step{op: "rotate", set: s0}, step{op: "arrive", tok: ta()}, step{op: "release", resp: g.goodResp(s0)},
+			step{op: "arrive", tok: ta()},
+			step{op: "rotate", set: s1}, step{op: "arrive", tok: tb()}, step{op: "arrive", tok: ta()},
+			step{op: "release", resp: g.goodResp(s1)}, step{op: "arrive", tok: tb()}, step{op: "arrive", tok: ta()},
+			step{op: "release", resp: g.goodResp(s1)})
+	case 11: // kid-less tokens again and again on one key set of mixed key types
+		s.tags = []string{"shape=kidless_mixed_types"}
+		a := drv.Pick(g.r, g.pool)
+		mk := func(k *keyEnt) *jwkSpec {
+			j := &jwkSpec{use: "sig", key: k}
+			if g.r.Bool() {
+				j.kid = g.freshKid()
+			}
+			return j
+		}
+		ja := mk(a)
+		set := []*jwkSpec{mk(g.otherKey(a, false)), ja} // a key the type filter drops comes first
+		if g.r.Bool() {
+			set = append(set, mk(g.otherKey(a, false)))
+		}
+		if g.r.Chance(1, 4) {
+			set[0], set[1] = set[1], set[0]
+		}
+		tk := func() *tokSpec { return g.token("kidless", "", a) }
+		add(step{op: "rotate", set: set}, step{op: "arrive", tok: tk()}, step{op: "release", resp: g.goodResp(set)},
+			step{op: "arrive", tok: tk()}, step{op: "arrive", tok: tk()})
+		if ja.kid != "" {
+			add(step{op: "arrive", tok: g.token("valid", ja.kid, a)})
+		}
+		add(step{op: "arrive", tok: tk()}, step{op: "release", resp: g.goodResp(set)})
 	case 8: // recovery: a download fails, the endpoint recovers and has rotated meanwhile
 		s.tags = []string{"shape=recovery", "rotate=1"}
 		hardFail := func() *respSpec {
@@ -891,7 +963,7 @@ func (g *gen) directed(which int) *script {
 		if g.r.Bool() { // with or without a warm cache
 			add(step{op: "arrive", tok: valid(0)}, step{op: "release", resp: g.goodResp(tl[0])})
 		}
-		add(step{op: "arrive", tok: valid(1)}, step{op: "release", resp: hardFail()})
+		add(rot(1), step{op: "arrive", tok: valid(1)}, step{op: "release", resp: hardFail()})
 		if g.r.Bool() {
 			add(step{op: "arrive", tok: valid(1)}, step{op: "release", resp: hardFail()})
 		}
@@ -911,12 +983,12 @@ func (g *gen) directed(which int) *script {
 	case 3: // rotation: warm cache, new key appears, old and new tokens
 		s.tags = []string{"shape=rotation", "rotate=1"}
 		add(step{op: "arrive", tok: valid(0)}, step{op: "release", resp: g.goodResp(tl[0])})
-		add(step{op: "arrive", tok: valid(1)}, step{op: "arrive", tok: valid(0)}, step{op: "arrive", tok: valid(1)},
+		add(rot(1), step{op: "arrive", tok: valid(1)}, step{op: "arrive", tok: valid(0)}, step{op: "arrive", tok: valid(1)},
 			step{op: "release", resp: g.goodResp(tl[1])}, step{op: "arrive", tok: valid(1)})
 	case 4: // failure keeps the cache
 		s.tags = []string{"shape=failure_keeps_cache"}
 		add(step{op: "arrive", tok: valid(0)}, step{op: "release", resp: g.goodResp(tl[0])})
-		add(step{op: "arrive", tok: g.token("unknownkid", "nope9", drv.Pick(g.r, g.pool))}, step{op: "arrive", tok: valid(1)},
+		add(rot(1), step{op: "arrive", tok: g.token("unknownkid", "nope9", drv.Pick(g.r, g.pool))}, step{op: "arrive", tok: valid(1)},
 			step{op: "release", resp: g.nextFailure(tl[1])}, step{op: "arrive", tok: valid(0)}, step{op: "arrive", tok: valid(0)})
 	default: // unknown kid: one refresh, then reject; again one refresh for the next call
 		s.tags = []string{"shape=unknown_kid"}
@@ -951,6 +1023,16 @@ func (s *script) finishTags() {
 			nCan++
 			if st.tid >= nArr {
 				add("precancel=1")
+			}
+		case "rotate":
+			seen := map[string]bool{}
+			for _, j := range st.set {
+				if j.kid == "" {
+					add("pub=kidless_key")
+				} else if seen[j.kid] {
+					add("pub=shared_kid")
+				}
+				seen[j.kid] = true
 			}
 		case "expire":
 			nCan++
@@ -1174,7 +1256,7 @@ func main() {
 	for i := 0; i < n; i++ {
 		var s *script
 		if i%4 == 0 {
-			s = g.directed((i / 4) % 10)
+			s = g.directed((i / 4) % 12)
 		} else {
 			s = g.randomScript()
 		}
@@ -1235,6 +1317,12 @@ func main() {
 				hs = append(hs, fmt.Sprintf("cancel %d", st.tid))
 			case "expire":
 				hs = append(hs, fmt.Sprintf("expire %d (context.WithDeadline passes)", st.tid))
+			case "rotate":
+				d := "endpoint now publishes"
+				for _, j := range st.set {
+					d += fmt.Sprintf(" {kid=%q %s use=%q key=%d}", j.kid, j.key.kty, j.use, j.key.mat)
+				}
+				hs = append(hs, d)
 			default:
 				b, _ := json.Marshal(string(st.resp.body()))
 				if len(b) > 200 {
@@ -1268,8 +1356,8 @@ func main() {
 	}
 	must(w.Close(emit.Meta{
 		Property: "C13", Tier: cfg.Tier, Seed: cfg.Seed,
-		Rule: "each case = one macro-schedule (arrive/cancel/expire/release; expire = a real context.WithDeadline passing) of 2-6 concurrent VerifySignature calls on a fresh rp.NewRemoteKeySet " +
-			"behind a gated RoundTripper; 1 in 4 directed shapes (owner cancel, pre-cancelled owner, joiner cancel, owner deadline expires, joiner deadline expires, rotation, failure keeps cache, unknown kid, fail-recover-rotate, one kid shared by keys of several types), " +
+		Rule: "each case = one macro-schedule (arrive/cancel/expire/release + rotate = ground truth of what the endpoint publishes; expire = a real context.WithDeadline passing) of 2-6 concurrent VerifySignature calls on a fresh rp.NewRemoteKeySet " +
+			"behind a gated RoundTripper; 1 in 4 directed shapes (owner cancel, pre-cancelled owner, joiner cancel, owner deadline expires, joiner deadline expires, rotation, failure keeps cache, unknown kid, fail-recover-rotate, one kid shared by keys of several types, keys without kid x tokens with kid and vice versa across a rotation, repeated kid-less tokens on a key set of mixed key types), " +
 			"the rest random phases over a timeline of rotating key sets (1 in 3 with a same-kid / kid-less neighbour of another or the same key type, before or after) with valid/future/older/unknown-kid/kid-less/wrong-key tokens and good/huge/5xx/non-200-with-JWKS/malformed (trailing bytes, truncated, wrong top-level type, keys not an array, not a JWKS, not JSON)/junk-only/empty/transport-error answers. " +
 			"Observed = snapshot after every step at quiescence. non-trivial = at least one caller arrived (path != 0); distinct = distinct (input, observed) terms.",
 		Notes: notes,
